@@ -33,9 +33,14 @@ pub fn build_on(world: &World, g: &mut ModuleGraph, roots: &[String], o: &BuildO
   let roots: Vec<ModuleSpecifier> = roots.iter().map(|r| world.spec_of(r)).collect();
   let exec = InlineExecutor;
   let npm = crate::world::WorldNpmResolver::new(&world.npm);
+  let imports: Vec<deno_graph::ReferrerImports> = world
+    .imports
+    .iter()
+    .map(|im| deno_graph::ReferrerImports { referrer: world.spec_of(&im.r#ref), imports: im.specs.iter().map(|t| world.text_for(&im.r#ref, t, "0")).collect() })
+    .collect();
   futures::executor::block_on(g.build(
     roots,
-    vec![],
+    imports,
     &loader,
     BuildOptions {
       is_dynamic: o.is_dynamic,
